@@ -758,6 +758,10 @@ def describe_parse(ev, obs, entry):
         def side(r):
             return "rejects" if not r.get("ok") else "accepts as [%s]" % "; ".join(pretty.sp(p) for p in r.get("policies") or [])
         o = "PolicyList.UnmarshalCedar %s, Policy.UnmarshalCedar %s" % (side(obs["list"]), side(obs["single"]))
+        for pd in obs.get("padded") or []:
+            if side(pd) != side(obs["list"]):
+                o += "; behind %d bytes of leading white space PolicyList.UnmarshalCedar %s" % (pd.get("n", -1), side(pd))
+                break
     return "parse `%s` => %s; the grammar %s" % (toks, o, e)
 
 
@@ -774,6 +778,8 @@ def run_C07(ctx):
                 "escapes, and every single-token deletion / duplication / replacement / swap of the representative policies are "
                 "emitted with the specification parser's verdict; the harness lays tokens out with random whitespace and "
                 "comments and runs PolicyList.UnmarshalCedar and Policy.UnmarshalCedar; accepted ASTs are compared node by node. "
+                "Texts with multi-byte characters are parsed again behind n bytes of leading white space / comment, n chosen so that "
+                "the character is cut at every inner byte boundary by a multiple of 1024 bytes (the tokenizer's read buffer): same list. "
                 "distinct = distinct token sequences.")
     ctx.assumptions = ["the grammar in spec/Syntax.tla is a transcription of the documented Cedar grammar (trailing commas in "
                        "comma-separated lists accepted as in the reference grammar; no limit on stacked unary operators)",
